@@ -131,6 +131,11 @@ class SoftwareManager:
                 config=software_config,
             )
 
+        if software.name in self.software:
+            # software of this name is already installed (e.g. system software that the scenario lists again with
+            # options): the new instance replaces it everywhere, rather than leaving the old one half-registered
+            self.uninstall(software.name)
+
         software.parent = self.node
         if isinstance(software, Application):
             self.node.applications[software.uuid] = software
